@@ -100,6 +100,11 @@ func (l *Loaded) findEntry(name string) *ssa.Function {
 }
 
 func main() {
+	if wd, err := os.Getwd(); err == nil {
+		if _, err := os.Stat(filepath.Join(wd, "checks.json")); err == nil {
+			verifRoot = wd // run from a snapshot/worktree of /verif: use its harnesses and configuration
+		}
+	}
 	if len(os.Args) < 2 {
 		fmt.Println("usage: gosym run|check|selftest ...")
 		os.Exit(2)
